@@ -87,6 +87,11 @@ def run(tier):
                 nviol += 1
                 V.violation(f"{verdict}:{shape(c)}|{describe(c)}", {"clause": verdict, "case": c, "description": describe(c)})
         ents = folded_designs(tier, rng)
+        # ... and the same operator/int mixes on run-time operands (the other side of "fold = run-time logic")
+        for j, (tag, in_ports, exprs) in enumerate(f for f in gen_expr.binary_families(3, tier) if f[0].startswith("int_")):
+            e = gen_expr.mk_entity(f"E09R_{j:04d}", in_ports, exprs)
+            e["family"] = "runtime_" + tag
+            ents.append(e)
         V, cov = product.run("C09", tier, ents, lambda e: 1, scratch, timeout=1500, verdict=V, finish=False)
     shapes = {shape(c) for c in cases}
     cov.update({"evaluations": checked + cov["transitions"], "python_level_cases": checked,
